@@ -297,7 +297,7 @@ unit = {
     "rmode": "double (IEEE, bit-precise); atof is a ghost-recording stub with unconstrained result",
     "defines": {"CAP": str(CAP)},
     "defines_small": {"CAP": "40"},
-    "flags": ["--bounds-check", "--pointer-check", "--signed-overflow-check", "--conversion-check"],
+    "flags": ["--bounds-check", "--pointer-check", "--signed-overflow-check", "--conversion-check", "--sat-solver", "cadical"],
     "timeout_s": 280,
     "constants": [
         {"name": "SOPLEX_LPF_MAX_LINE_LEN", "file": HPP, "regex": r"#define\s+SOPLEX_LPF_MAX_LINE_LEN\s+(\d+)"},
